@@ -18,6 +18,9 @@ type Case struct {
 	VarsForm string       `json:"varsForm"` // "object": Vars is the JSON text; "absent": no variables; "null": the text null
 	Vars     string       `json:"vars"`
 	Break    string       `json:"break,omitempty"` // what the generator did to the coercible value ("" = nothing)
+	// OperationName selects the operation whose variable definitions are Decls when the
+	// document carries further operations ("" = the document has one operation).
+	OperationName string `json:"operationName,omitempty"`
 }
 
 // node is a position inside a generated variable value together with its expected type.
@@ -154,6 +157,53 @@ func genCase(t *rapid.T) Case {
 		opName = " Q"
 	}
 	c.Query = "query" + opName + ir.VarDefsText(c.Decls) + " { " + strings.Join(sels, " ") + " }"
+	// Multi-operation document: 1-2 further operations that are NOT selected. They declare
+	// required variables the request does not carry and variables named like the selected
+	// operation's but of another type; the request must be judged against the selected
+	// operation only.
+	if rapid.SampledFrom([]int{0, 1, 0, 0, 2, 0}).Draw(t, "decoys") > 0 {
+		c.OperationName = "Q"
+		ops := []string{"query Q" + ir.VarDefsText(c.Decls) + " { " + strings.Join(sels, " ") + " }"}
+		nd := rapid.IntRange(1, 2).Draw(t, "ndecoys")
+		for k := 0; k < nd; k++ {
+			var decls []ir.VarDecl
+			var dsels []string
+			add := func(name, typ string) {
+				echo := ir.Echo{Name: fmt.Sprintf("d%d_%d", k, len(decls)), Arg: ir.Field{Name: "v", Type: typ}}
+				s.Echoes = append(s.Echoes, echo)
+				decls = append(decls, ir.VarDecl{Name: name, Type: typ})
+				dsels = append(dsels, echo.Name+"(v: $"+name+")")
+			}
+			if rapid.IntRange(0, 2).Draw(t, "decoy-own-required") > 0 {
+				add(fmt.Sprintf("only%d", k), rapid.SampledFrom([]string{"ID!", "Int!", "[String!]!", "Boolean!"}).Draw(t, "decoy-own-type"))
+			}
+			for i, d := range c.Decls {
+				if rapid.IntRange(0, 2).Draw(t, "decoy-same-name") == 0 {
+					continue
+				}
+				// same name, a type no value of the selected operation's type coerces to
+				typ := "Int!"
+				switch s.KindOf(types[i].Base()) {
+				case ir.KindInt, ir.KindFloat, ir.KindID, ir.KindCustomScalar:
+					typ = "Boolean!"
+				}
+				if rapid.IntRange(0, 3).Draw(t, "decoy-same-type") == 0 {
+					typ = d.Type // identical declaration: must not matter either
+				}
+				add(d.Name, typ)
+			}
+			if len(decls) == 0 {
+				add(fmt.Sprintf("only%d", k), "ID!")
+			}
+			op := fmt.Sprintf("query D%d", k) + ir.VarDefsText(decls) + " { " + strings.Join(dsels, " ") + " }"
+			if rapid.Bool().Draw(t, "decoy-first") {
+				ops = append([]string{op}, ops...)
+			} else {
+				ops = append(ops, op)
+			}
+		}
+		c.Query = strings.Join(ops, rapid.SampledFrom([]string{" ", "\n"}).Draw(t, "opsep"))
+	}
 	c.Schema = *s
 
 	// ---- optionally break the assignment at one position -------------------------------------
